@@ -14,6 +14,8 @@ import (
 	"strings"
 	"sync"
 	"testing"
+	"unicode"
+	"unicode/utf8"
 )
 
 func vshowMatches(ms Matches) string {
@@ -96,8 +98,11 @@ func TestVerifC13(t *testing.T) {
 				v = "  " + v
 			}
 			ok := strings.TrimSpace(v) != ""
-			for _, w := range values { // none occurs inside another
-				if strings.Contains(w, v) || strings.Contains(v, w) {
+			for _, w := range values { // none occurs inside another, as registered and after normalisation
+				nw, nv := c.normalize(w), c.normalize(v)
+				cw, cv := strings.TrimSpace(nw), strings.TrimSpace(nv) // … nor the text between its stray blanks
+				if strings.Contains(w, v) || strings.Contains(v, w) || strings.Contains(nw, nv) || strings.Contains(nv, nw) ||
+					strings.Contains(cw, cv) || strings.Contains(cv, cw) {
 					ok = false
 				}
 			}
@@ -146,10 +151,57 @@ func TestVerifC13(t *testing.T) {
 			o.verdict("C13", fmt.Sprintf("s%d_near%d", si, i), what == "", true, "near:"+hxs(v), map[string]interface{}{"what": what, "values_hex": vhexAll(values), "i": i})
 		}
 		// plant a verbatim copy of one value in unrelated text
-		for k := 0; k < 5; k++ {
+		for k := 0; k < 8; k++ {
 			vi := rr.intn(len(values))
 			v := values[vi]
 			pre, post := vfiller(rr, rr.intn(6)), vfiller(rr, rr.intn(6))
+			planted := []int{vi}
+			exactV := ""
+			if k >= 5 {
+				// copies of ALL the values next to each other, a few unrelated words (or none) between
+				// them: shortest first (5) or in random order (6) — each copy must be reported
+				if len(values) < 2 {
+					continue
+				}
+				planted = planted[:0]
+				for i := range values {
+					planted = append(planted, i)
+				}
+				if k == 5 {
+					sort.SliceStable(planted, func(a, b int) bool { return len(values[planted[a]]) < len(values[planted[b]]) })
+				} else {
+					for i := len(planted) - 1; i > 0; i-- {
+						j := rr.intn(i + 1)
+						planted[i], planted[j] = planted[j], planted[i]
+					}
+				}
+				var parts []string
+				for j, pi := range planted {
+					parts = append(parts, values[pi])
+					g := rr.intn(4)
+					// two copies must not share the blank one ends and the next begins with (white space
+					// runs are flattened to one blank): such copies overlap
+					if g == 0 && (strings.TrimSpace(values[pi]) != values[pi] || (j+1 < len(planted) && strings.TrimSpace(values[planted[j+1]]) != values[planted[j+1]])) {
+						g = 1
+					}
+					if g > 0 {
+						parts = append(parts, vfiller(rr, g))
+					}
+				}
+				vi = planted[0]
+				v = strings.Join(parts, " ")
+			}
+			if k == 7 {
+				// the value's text occurs literally but INSIDE a longer word (no token starts or ends
+				// where the occurrence does): nothing to report at 1.0, but whatever is reported has to
+				// stay inside the text and the call has to return
+				planted = nil
+				exactV = strings.TrimSpace(v)
+				v = []string{"xx", "con", "q"}[rr.intn(3)] + strings.TrimSpace(v) + []string{"yy", "enate", ""}[rr.intn(3)]
+				if rr.chance(1, 2) {
+					post = ""
+				}
+			}
 			if k == 4 {
 				// an INEXACT hit at the very end of the text: the value without its last words (its byte
 				// range is shorter than the value; Offset+Extent must still stay inside the text)
@@ -177,9 +229,12 @@ func TestVerifC13(t *testing.T) {
 				unknown = strings.TrimLeft(pre+" "+v, " ") // the copy, stray blanks included, ends the text
 			}
 			var ms Matches
-			o.attempt("C13", fmt.Sprintf("s%d_plant%d", si, k), map[string]interface{}{"call": "MultipleMatch", "unknown_hex": hxs(unknown), "values_hex": vhexAll(values), "threshold": th})
+			o.attempt("C13,C17", fmt.Sprintf("s%d_plant%d", si, k), map[string]interface{}{"call": "MultipleMatch", "unknown_hex": hxs(unknown), "values_hex": vhexAll(values), "threshold": th})
 			pan, msg := catch(func() { ms = c.MultipleMatch(unknown) })
 			normU, normV := c.normalize(unknown), c.normalize(v)
+			if exactV != "" {
+				normV = strings.TrimSpace(c.normalize(exactV))
+			}
 			// stage v1exact: the exact path of findMatches (literal occurrences -> token range -> byte
 			// range), white-box, against LC/Model/V1Glue + V1Tok; threshold 0 so that nothing is filtered
 			if !pan && normV != "" {
@@ -221,33 +276,46 @@ func TestVerifC13(t *testing.T) {
 						what = fmt.Sprintf("match %+v lies outside the normalised unknown (%d bytes)", *m, len(normU))
 					}
 				}
-				// token-aligned occurrences of normV in normU
-				if what == "" && normV != "" && k != 4 { // k == 4 plants no verbatim copy
-					off := strings.Index(" "+normU+" ", " "+strings.TrimSpace(normV)+" ")
-					if strings.TrimSpace(normV) != normV {
-						// the registered text itself begins/ends with a blank: the copy is where that exact text occurs
-						off = strings.Index(normU, normV)
+				// token-aligned occurrences of every planted value in normU: the literal normalised value,
+				// white space at its ends included, whose text between that white space is delimited by
+				// white space or the ends of the string
+				for _, pvi := range planted {
+					normV := c.normalize(values[pvi])
+					core := strings.TrimFunc(normV, unicode.IsSpace)
+					if what != "" || core == "" || k == 4 { // k == 4 plants no verbatim copy
+						continue
 					}
-					// every token-aligned copy, left to right, non-overlapping
-					for off >= 0 && strings.TrimSpace(normV) == normV && what == "" {
-						found := false
-						for _, m := range ms {
-							if m.Name == fmt.Sprintf("v%d", vi) && m.Confidence == 1.0 && m.Offset == off && m.Extent == len(normV) {
-								found = true
-							}
-						}
-						if !found {
-							what = fmt.Sprintf("value %d planted at byte %d (extent %d) of %q; MultipleMatch reported %s", vi, off, len(normV), normU, vshowMatches(ms))
-						}
-						next := strings.Index((" " + normU + " ")[off+len(normV)+1:], " "+normV+" ")
-						if next < 0 {
+					lead := len(normV) - len(strings.TrimLeftFunc(normV, unicode.IsSpace))
+					for from := 0; from <= len(normU) && what == ""; {
+						i := strings.Index(normU[from:], normV)
+						if i < 0 {
 							break
 						}
-						off = off + len(normV) + 1 + next
+						off := from + i
+						cs, ce := off+lead, off+lead+len(core)
+						rb, _ := utf8.DecodeLastRuneInString(normU[:cs])
+						ra, _ := utf8.DecodeRuneInString(normU[ce:])
+						if (cs == 0 || unicode.IsSpace(rb)) && (ce == len(normU) || unicode.IsSpace(ra)) {
+							found := false
+							for _, m := range ms {
+								if m.Name == fmt.Sprintf("v%d", pvi) && m.Confidence == 1.0 && m.Offset == off && m.Extent == len(normV) {
+									found = true
+								}
+							}
+							if !found {
+								what = fmt.Sprintf("value %d planted at byte %d (extent %d) of %q; MultipleMatch reported %s", pvi, off, len(normV), normU, vshowMatches(ms))
+							}
+							from = off + len(normV)
+						} else {
+							from = off + 1
+						}
 					}
 				}
 			}
 			inside := ""
+			if pan {
+				inside = "MultipleMatch panicked: " + msg
+			}
 			if !pan {
 				for _, m := range ms {
 					if m.Offset < 0 || m.Extent < 0 || m.Offset+m.Extent > len(normU) {
@@ -452,269 +520,9 @@ func TestVerifDump(t *testing.T) {
 		})
 		return false
 	})
-	locks := vlockSkeletons(t)
+	locks := vlockSkeletons(t, "values", "muValues")
 	b, _ := json.Marshal(map[string]interface{}{"multipleMatchSkeleton": events, "locks": locks})
 	if err := os.WriteFile(os.Getenv("VERIF_OUT")+"/v1protocol.json", b, 0o644); err != nil {
 		t.Fatal(err)
 	}
-}
-
-
-// ---------------------------------------------------------------------------
-// Lock-region skeletons for the map `values` guarded by `muValues` (LC/Model/RW.lean): every
-// function and every goroutine literal of the package's non-test files that mentions either, as a
-// Lean term of type LC.RW.Blk. The extractor only reports; LC.RW.accepts decides.
-
-func vlockSkeletons(t *testing.T) [][2]string {
-	fset := gotoken.NewFileSet()
-	pkgs, err := parser.ParseDir(fset, ".", func(fi os.FileInfo) bool { return !strings.HasSuffix(fi.Name(), "_test.go") }, 0)
-	if err != nil {
-		t.Fatal(err)
-	}
-	isValues := func(e ast.Expr) bool { // the selector `<x>.values`
-		se, ok := e.(*ast.SelectorExpr)
-		return ok && se.Sel.Name == "values"
-	}
-	mentions := func(n ast.Node, name string) bool {
-		found := false
-		if n == nil {
-			return false
-		}
-		ast.Inspect(n, func(m ast.Node) bool {
-			if se, ok := m.(*ast.SelectorExpr); ok && se.Sel.Name == name {
-				found = true
-			}
-			if _, ok := m.(*ast.FuncLit); ok {
-				return false // a literal's body is a skeleton of its own (goroutine) or inlined below
-			}
-			return true
-		})
-		return found
-	}
-	muCall := func(e ast.Expr) string { // muValues.Lock() etc.
-		ce, ok := e.(*ast.CallExpr)
-		if !ok {
-			return ""
-		}
-		se, ok := ce.Fun.(*ast.SelectorExpr)
-		if !ok {
-			return ""
-		}
-		x, ok := se.X.(*ast.SelectorExpr)
-		if !ok || x.Sel.Name != "muValues" {
-			return ""
-		}
-		return se.Sel.Name
-	}
-	var out [][2]string
-	var lits []*ast.FuncLit
-	var blk func(stmts []ast.Stmt, inLoop bool) string
-	cons := func(items []string) string {
-		r := ".nil"
-		for i := len(items) - 1; i >= 0; i-- {
-			r = "(.cons " + items[i] + " " + r + ")"
-		}
-		return r
-	}
-	rdIf := func(n ast.Node) []string {
-		if mentions(n, "values") {
-			return []string{"(.s (.a .rd))"}
-		}
-		return nil
-	}
-	var stmt func(st ast.Stmt, inLoop bool) []string
-	stmt = func(st ast.Stmt, inLoop bool) []string {
-		switch x := st.(type) {
-		case nil:
-			return nil
-		case *ast.ExprStmt:
-			switch muCall(x.X) {
-			case "Lock":
-				return []string{"(.s (.a .lock))"}
-			case "Unlock":
-				return []string{"(.s (.a .unlock))"}
-			case "RLock":
-				return []string{"(.s (.a .rlock))"}
-			case "RUnlock":
-				return []string{"(.s (.a .runlock))"}
-			}
-			if ce, ok := x.X.(*ast.CallExpr); ok {
-				if id, ok := ce.Fun.(*ast.Ident); ok && (id.Name == "delete" || id.Name == "clear") && len(ce.Args) > 0 && mentions(ce.Args[0], "values") {
-					return []string{"(.s (.a .wr))"}
-				}
-			}
-			return rdIf(x)
-		case *ast.DeferStmt:
-			switch muCall(x.Call) {
-			case "Unlock":
-				return []string{"(.s .deferUnlock)"}
-			case "RUnlock":
-				return []string{"(.s .deferRUnlock)"}
-			case "Lock", "RLock":
-				return []string{"(.s .alias)"} // a deferred acquisition: not a shape the checker knows
-			}
-			if fl, ok := x.Call.Fun.(*ast.FuncLit); ok && (mentions(fl.Body, "values") || mentions(fl.Body, "muValues")) {
-				return []string{"(.s .alias)"} // deferred closures touching the location: rejected
-			}
-			return rdIf(x.Call)
-		case *ast.GoStmt:
-			if fl, ok := x.Call.Fun.(*ast.FuncLit); ok {
-				lits = append(lits, fl)
-			}
-			var r []string
-			for _, a := range x.Call.Args {
-				r = append(r, rdIf(a)...)
-			}
-			return r
-		case *ast.ReturnStmt:
-			var r []string
-			for _, e := range x.Results {
-				r = append(r, rdIf(e)...)
-			}
-			return append(r, "(.s .ret)")
-		case *ast.BranchStmt:
-			if x.Tok == gotoken.GOTO || x.Tok == gotoken.FALLTHROUGH || x.Label != nil || !inLoop {
-				return []string{"(.s .alias)"} // labelled jumps / goto: not modelled, rejected
-			}
-			return []string{"(.s .jump)"}
-		case *ast.AssignStmt:
-			var r []string
-			for _, e := range x.Rhs {
-				if isValues(e) {
-					r = append(r, "(.s .alias)") // the map header escapes: m := c.values
-				} else {
-					r = append(r, rdIf(e)...)
-				}
-			}
-			for _, e := range x.Lhs {
-				if ix, ok := e.(*ast.IndexExpr); ok && mentions(ix.X, "values") {
-					r = append(r, "(.s (.a .wr))")
-				} else if isValues(e) {
-					r = append(r, "(.s (.a .wr))")
-				} else {
-					r = append(r, rdIf(e)...)
-				}
-			}
-			return r
-		case *ast.DeclStmt, *ast.IncDecStmt, *ast.SendStmt:
-			return rdIf(x)
-		case *ast.BlockStmt:
-			var r []string
-			for _, y := range x.List {
-				r = append(r, stmt(y, inLoop)...)
-			}
-			return r
-		case *ast.LabeledStmt:
-			return []string{"(.s .alias)"}
-		case *ast.IfStmt:
-			r := stmt(x.Init, inLoop)
-			r = append(r, rdIf(x.Cond)...)
-			body := blk(x.Body.List, inLoop)
-			switch e := x.Else.(type) {
-			case nil:
-				r = append(r, "(.opt "+body+")")
-			case *ast.BlockStmt:
-				r = append(r, "(.alt "+body+" "+blk(e.List, inLoop)+")")
-			default:
-				r = append(r, "(.alt "+body+" "+cons(stmt(e, inLoop))+")")
-			}
-			return r
-		case *ast.ForStmt:
-			r := stmt(x.Init, inLoop)
-			var b []string
-			b = append(b, rdIf(x.Cond)...)
-			for _, y := range x.Body.List {
-				b = append(b, stmt(y, true)...)
-			}
-			b = append(b, stmt(x.Post, true)...)
-			return append(r, "(.loop "+cons(b)+")")
-		case *ast.RangeStmt:
-			var r, b []string
-			if isValues(x.X) || mentions(x.X, "values") {
-				r = append(r, "(.s (.a .rd))")
-				b = append(b, "(.s (.a .rd))") // every iteration step reads the map
-			}
-			for _, y := range x.Body.List {
-				b = append(b, stmt(y, true)...)
-			}
-			return append(r, "(.loop "+cons(b)+")")
-		case *ast.SwitchStmt, *ast.TypeSwitchStmt, *ast.SelectStmt:
-			var r []string
-			var body *ast.BlockStmt
-			switch y := x.(type) {
-			case *ast.SwitchStmt:
-				r = append(r, stmt(y.Init, inLoop)...)
-				r = append(r, rdIf(y.Tag)...)
-				body = y.Body
-			case *ast.TypeSwitchStmt:
-				body = y.Body
-			case *ast.SelectStmt:
-				body = y.Body
-			}
-			for _, c := range body.List {
-				var cb []ast.Stmt
-				switch cc := c.(type) {
-				case *ast.CaseClause:
-					for _, e := range cc.List {
-						r = append(r, rdIf(e)...)
-					}
-					cb = cc.Body
-				case *ast.CommClause:
-					cb = cc.Body
-				}
-				// `break` inside a switch leaves the switch, not a loop: not modelled -> reject via inLoop=false
-				r = append(r, "(.opt "+blk(cb, false)+")")
-			}
-			return r
-		}
-		return rdIf(st)
-	}
-	blk = func(stmts []ast.Stmt, inLoop bool) string {
-		var items []string
-		for _, y := range stmts {
-			items = append(items, stmt(y, inLoop)...)
-		}
-		return cons(items)
-	}
-	var files []string
-	for _, p := range pkgs {
-		for fn := range p.Files {
-			files = append(files, fn)
-		}
-	}
-	sort.Strings(files)
-	for _, p := range pkgs {
-		for _, fn := range files {
-			f := p.Files[fn]
-			if f == nil {
-				continue
-			}
-			for _, d := range f.Decls {
-				fd, ok := d.(*ast.FuncDecl)
-				if !ok || fd.Body == nil {
-					continue
-				}
-				touches := false
-				ast.Inspect(fd.Body, func(m ast.Node) bool {
-					if se, ok := m.(*ast.SelectorExpr); ok && (se.Sel.Name == "values" || se.Sel.Name == "muValues") {
-						touches = true
-					}
-					return true
-				})
-				if !touches {
-					continue
-				}
-				lits = nil
-				out = append(out, [2]string{fd.Name.Name, blk(fd.Body.List, false)})
-				// goroutine literals started by this function: threads of their own
-				for k := 0; k < len(lits); k++ {
-					fl := lits[k]
-					if mentions(fl.Body, "values") || mentions(fl.Body, "muValues") {
-						out = append(out, [2]string{fmt.Sprintf("%s.go%d", fd.Name.Name, k), blk(fl.Body.List, false)})
-					}
-				}
-			}
-		}
-	}
-	return out
 }
